@@ -42,3 +42,11 @@ def failk(tag, k, value):
     if k <= 0 or c[key] == k:
         raise PluginFailure(f'FAILK({tag}) call {c[key]}')
     return value
+
+
+def failname(value):
+    """=FAILNAME(x): fails the way a buggy plugin does - with a NameError (an UnboundLocalError) of its own"""
+    if value is failname:          # never true: ``result`` stays unbound
+        result = 0
+    return result + value          # noqa: F821
+
